@@ -13,6 +13,8 @@ def gen_action(rng):
     if k in ("json", "normalize"):
         while True:
             d = c01.gen_doc(rng)
+            if isinstance(d, dict) and '"$ref"' not in json.dumps(d) and rng.random() < 0.75:
+                continue                      # references are where names are looked up: keep them frequent
             if isinstance(d, dict) and rng.random() < 0.4:
                 # references and boolean schemas directly inside root-level combinators
                 defs = d.setdefault("$defs", {})
@@ -33,6 +35,45 @@ def gen_action(rng):
     return [k, X.to_xsd(X.gen_schema(rng))]
 
 
+def twin(rng, probe):
+    """an input that uses the same names as the probe (definitions, rules, named types) for different things: whatever
+    is remembered per name / per reference string across calls shows up in the probe"""
+    kind, data = probe[0], probe[1]
+    if kind in ("json", "normalize") and isinstance(data, dict):
+        t = copy.deepcopy(data)
+        defs = t.get("$defs")
+        pool = [{"type": "string", "minLength": 3}, {"type": "number", "minimum": 7}, {"type": "boolean"},
+                {"enum": ["p", "q"]}, {"type": "array", "items": {"type": "null"}, "minItems": 0}, {"type": "integer", "maximum": -4}]
+        if isinstance(defs, dict) and defs:
+            for k in list(defs.keys()):
+                if rng.random() < 0.8:
+                    defs[k] = copy.deepcopy(rng.choice(pool))
+        else:
+            # same root pointer "#", other content below it
+            for k in ("properties", "items", "prefixItems"):
+                if k in t and rng.random() < 0.7:
+                    t.pop(k)
+            t["title"] = "twin"
+        if J.metaschema_ok(t):
+            return [kind, t]
+        return None
+    if kind == "grammar":
+        t = copy.deepcopy(data)
+        rules = t["rules"]
+        if rules:
+            i = rng.randrange(len(rules))
+            rules[i] = [rules[i][0], ["T", rng.choice(["p", "q", "r"])]]
+            if GM.names_defined(rules) and GM.productive(rules):
+                return [kind, t]
+        return None
+    if kind == "xml":
+        txt = data
+        if "ST0" in txt or "CT0" in txt:
+            t = X.to_xsd(X.gen_schema(rng))
+            return [kind, t] if ("ST0" in t or "CT0" in t) else None
+    return None
+
+
 def fresh(job, hashseed):
     env = dict(os.environ, PYTHONHASHSEED=str(hashseed), PYTHONPATH=os.path.join(VERIF, "harness"), PYTHONDONTWRITEBYTECODE="1",
                FENCES_GRAMMAR_CACHE=os.path.join(BUILD, "grammar_cache.py"))
@@ -51,7 +92,7 @@ def run(pid, tier):
     os.environ["FENCES_GRAMMAR_CACHE"] = os.path.join(BUILD, "grammar_cache.py")
     fences_env._grammar_source()
     rng = random.Random(ck.seed * 271 + 9)
-    n = 24 if tier == "quick" else 400
+    n = 48 if tier == "quick" else 500
     hashseed = os.environ.get("PYTHONHASHSEED", "0")
     jobs = []
     hist = {"json": 0, "normalize": 0, "regex": 0, "grammar": 0, "xml": 0, "history_calls": 0, "partial_generators": 0}
@@ -67,9 +108,35 @@ def run(pid, tier):
             probe = copy.deepcopy(rng.choice(h)[:2])          # the probe input was already processed in the history
         else:
             probe = gen_action(rng)
+        if rng.random() < 0.9:
+            tw = twin(rng, probe)
+            if tw is not None:
+                h.insert(rng.randrange(len(h) + 1), tw)
+                hist["twins"] = hist.get("twins", 0) + 1
         hist[probe[0]] += 1
         hist["history_calls"] += len(h)
         jobs.append({"history": h, "probe": probe, "seed": rng.randrange(1000)})
+    # dedicated name-reuse jobs: an input and, before it, its twin (same definition / rule / type names, other content)
+    for kind, count in (("json", 8), ("normalize", 4), ("grammar", 3), ("xml", 3)):
+        made = 0
+        tries = 0
+        while made < (count if tier == "quick" else count * 8) and tries < 2000:
+            tries += 1
+            probe = gen_action(rng)
+            if probe[0] != kind:
+                continue
+            if kind in ("json", "normalize") and '"$defs"' not in json.dumps(probe[1]):
+                continue
+            tw = twin(rng, probe)
+            if tw is None:
+                continue
+            h = [tw] + [gen_action(rng) for _ in range(rng.choice([0, 1, 2]))]
+            rng.shuffle(h)
+            jobs.append({"history": h, "probe": probe, "seed": rng.randrange(1000)})
+            hist[probe[0]] += 1
+            hist["history_calls"] += len(h)
+            hist["twins"] = hist.get("twins", 0) + 1
+            made += 1
     # same process: history then probe, all in this interpreter... but one interpreter per job keeps jobs independent
     def both(job):
         with_history = fresh(job, hashseed)
@@ -78,7 +145,7 @@ def run(pid, tier):
     with ThreadPoolExecutor(max_workers=12) as ex:
         results = list(ex.map(both, jobs))
     for job, (a, b) in zip(jobs, results):
-        ck.count(json.dumps(job, sort_keys=True), len(job["history"]) >= 3)
+        ck.count(json.dumps(job, sort_keys=True), len(job["history"]) >= 1)
         ck.cov["traces_validated_against_impl"] += 1
         if not a["unchanged"] or not b["unchanged"]:
             ck.violation("input-modified:" + job["probe"][0], "the caller's %s input is modified by processing it" % job["probe"][0], {"job": job})
@@ -104,7 +171,7 @@ def run(pid, tier):
     ck.sample({"history": [a[0] for a in jobs[0]["history"]], "probe": jobs[0]["probe"][0]})
     ck.cov["rule"] = ("random histories of 3-12 calls over parse_json_schema / normalize / parse_regex / parse_grammar / parse_xml_schema, each followed by (possibly partially "
                       "consumed) generate_paths and repeated execute, then a probe input (half of the time one already seen in the history); the probe is compared with a fresh "
-                      "interpreter with the same PYTHONHASHSEED and random seed; inputs are deep-compared before/after; distinct = job, non-trivial = history of at least 3 calls")
+                      "interpreter with the same PYTHONHASHSEED and random seed; inputs are deep-compared before/after; plus dedicated name-reuse jobs (an input preceded by a twin that uses the same definition / rule / type names for other content); distinct = job, non-trivial = non-empty history")
     ck.notes["input_distribution"] = hist
     ck.assumptions = ["hidden interpreter state can only be sampled, not excluded: the proof part covers the state the model names (annotations are reset and recomputed)"]
     return ck.finish(level="other", trusted=["fresh-interpreter comparison (subprocess)"],
